@@ -249,6 +249,9 @@ class FloatLiteral(Literal[float]):
         super().__init__(token, value)
 
     def __str__(self) -> str:
+        if self.value in (float("inf"), float("-inf")):
+            # A literal too big for a float. `inf` would be read as a variable.
+            return "1.0e999" if self.value > 0 else "-1.0e999"
         rv = repr(self.value)
         if "." not in rv and "e" in rv:
             # `1e+16` would be scanned as an integer literal.
